@@ -138,7 +138,8 @@ func c18Run(r *runCtx, id string, f []string) {
 			delete(pending, p[1])
 		case "mv":
 			if _, err := os.Lstat(filepath.Join(root, p[2])); err != nil {
-				if _, err1 := os.Lstat(filepath.Join(root, p[1])); err1 == nil {
+				// directories are not renamed (the model's guard says the same)
+				if fi1, err1 := os.Lstat(filepath.Join(root, p[1])); err1 == nil && !fi1.IsDir() {
 					_ = os.Rename(filepath.Join(root, p[1]), filepath.Join(root, p[2]))
 					delete(pending, p[1])
 					if isTailedPath(filepath.Join(root, p[2])) {
@@ -245,6 +246,14 @@ func init() {
 					emit(ps, ig, ops)
 				}
 			}
+			// a name that is a directory at one poll and a regular file at a later one (and the reverse)
+			for _, ps := range patSets {
+				for _, ig := range []string{"-", "s:.gz"} {
+					emit(ps, ig, []string{"md:d1/a.log", "p", "rm:d1/a.log", "cf:d1/a.log", "p", "ap:d1/a.log:" + hx("one"), "p",
+						"md:d1/b.log", "p", "rm:d1/b.log", "cf:d1/m.log", "mv:d1/m.log:d1/b.log", "p", "ap:d1/b.log:" + hx("two"), "p",
+						"rm:d1/a.log", "md:d1/a.log", "p", "p"})
+				}
+			}
 			n := 120
 			if g.thorough() {
 				n = 2500
@@ -265,6 +274,9 @@ func init() {
 						ops = append(ops, fmt.Sprintf("ap:%s:%s", p, hx(fmt.Sprintf("n%d", j))))
 					case 7:
 						ops = append(ops, "rm:"+p)
+						if g.r.chance(1, 3) {
+							ops = append(ops, "md:"+p) // the name comes back as a directory
+						}
 					case 8:
 						ops = append(ops, fmt.Sprintf("mv:%s:%s", p, []string{"d1/m.log", "d2/m.log", "d1/n.txt"}[g.r.intn(3)]))
 					}
